@@ -527,8 +527,14 @@ class Run:
 
     def _rules_tables(self, O, NOW, quick, rng, datetime, re, urlsplit):
         def pick(rows, n):
+            """the whole table (thorough), or in the quick tier: the first row (all dimensions at their
+            first, conforming, value), every single-dimension deviation from it, and a random sample"""
             rows = list(rows)
-            return rows if (not quick or len(rows) <= n) else rng.sample(rows, n)
+            if not quick or len(rows) <= n:
+                return rows
+            base = rows[0]
+            single = [r for r in rows if sum(1 for a, b in zip(r, base) if a != b) <= 1]
+            return single + rng.sample(rows, n)
 
         # ---- error_description (oauth2.ResponseMessage and every subclass that only inherits it)
         def o_resp(m, kw):
